@@ -20,7 +20,7 @@ def main():
     rnd = random.Random(chk.seed)
     quick = chk.tier == "quick"
     nontrivial = 0
-    for wn, cfgsel in (("secrets-bexpr", [0, 2]), ("secrets-json", [1, 8]), ("secrets-pointer", [12])):
+    for wn, cfgsel in (("secrets-bexpr", [0, 2]), ("secrets-json", [1, 8]), ("secrets-pointer", [12]), ("secrets-zero", [0])):
         nontrivial += one_world(chk, rnd, quick, wn, cfgsel)
     chk.cov["distinct_nontrivial"] = nontrivial
     chk.notes["rule"] = ("expressions over every structural path of three paired documents (struct, pointer to struct, struct inside map / "
@@ -33,7 +33,7 @@ def main():
 
 def one_world(chk, rnd, quick, wn, cfgsel):
     data = json.loads(vlib.harness(["data", "-worlds", wn]).stdout)
-    atoms, keys = vlib.atoms_for_docs(data["docs"], 4 if not quick else 3, rnd, per_path=1 if quick else 4, extra_lits=SECRETS if not quick else rnd.sample(SECRETS, 3))
+    atoms, keys = vlib.atoms_for_docs(data["docs"], 4 if not quick else 3, rnd, per_path=1 if quick else 4, extra_lits=SECRETS if not quick else ["s3cr3t", "3t"] + rnd.sample(SECRETS[1:], 2))
     # names that only exist as hidden / unexported / promoted fields, addressed in every plausible way
     for p in (["Hidden"], ["JHidden"], ["private"], ["Promoted"], ["hiddenEmb"], ["hiddenEmb", "Promoted"], ["Inner", "Secret"], ["Inner", "low"],
               ["PInner", "Secret"], ["List", "0", "Secret"], ["M", "a", "Secret"], ["M", "b", "sec"], ["jhid"], ["Inner", "sec"], ["t", "Hidden"],
